@@ -294,11 +294,18 @@ type c12Run struct {
 var c12cur *c12Run
 
 type c12Func struct {
-	f func(tid uint64, args []interface{}) (interface{}, error)
+	f func(tid, key uint64, args []interface{}) (interface{}, error)
 }
 
 func (g *c12Func) Run(instanceID string, vs parser.Scope, is map[string]interface{}, tid uint64, args []interface{}) (interface{}, error) {
-	return g.f(tid, args)
+	// occupants are told apart by thread id AND by kind of thread (a sink execution carries its
+	// monitor in the instance state): a pool worker and a directly evaluating thread that were
+	// given the same id are two occupants
+	key := tid << 1
+	if _, sink := is["monitor"]; sink {
+		key |= 1
+	}
+	return g.f(tid, key, args)
 }
 func (g *c12Func) DocString() (string, error) { return "C12 harness function", nil }
 
@@ -306,18 +313,18 @@ func c12NameIdx(v interface{}) int { return int(fmt.Sprint(v)[0] - 'a') }
 
 func c12Setup() {
 	registerX("c12nop", func(args []interface{}) (interface{}, error) { return nil, nil }) // creates package x
-	reg := func(name string, f func(tid uint64, args []interface{}) (interface{}, error)) {
+	reg := func(name string, f func(tid, key uint64, args []interface{}) (interface{}, error)) {
 		if err := stdlib.AddStdlibFunc("x", name, &c12Func{f}); err != nil {
 			panic(err)
 		}
 	}
-	reg("enter", func(tid uint64, args []interface{}) (interface{}, error) {
+	reg("enter", func(tid, key uint64, args []interface{}) (interface{}, error) {
 		r := c12cur
 		n := c12NameIdx(args[0])
 		r.mu.Lock()
 		r.trace = append(r.trace, fmt.Sprintf("e%d%c", tid, 'a'+n))
-		r.inside[n][tid]++
-		r.stacks[tid] = append(r.stacks[tid], n)
+		r.inside[n][key]++
+		r.stacks[key] = append(r.stacks[key], n)
 		occ := 0
 		for _, d := range r.inside[n] {
 			if d > 0 {
@@ -330,25 +337,25 @@ func c12Setup() {
 		r.mu.Unlock()
 		return nil, nil
 	})
-	reg("exit", func(tid uint64, args []interface{}) (interface{}, error) {
+	reg("exit", func(tid, key uint64, args []interface{}) (interface{}, error) {
 		r := c12cur
 		kind := fmt.Sprint(args[0])
 		lv := int(args[1].(float64))
 		r.mu.Lock()
 		r.trace = append(r.trace, fmt.Sprintf("x%d%s%d", tid, kind, lv))
 		for i := 0; i < lv; i++ {
-			st := r.stacks[tid]
+			st := r.stacks[key]
 			if len(st) == 0 {
 				break
 			}
 			n := st[len(st)-1]
-			r.stacks[tid] = st[:len(st)-1]
-			r.inside[n][tid]--
+			r.stacks[key] = st[:len(st)-1]
+			r.inside[n][key]--
 		}
 		r.mu.Unlock()
 		return nil, nil
 	})
-	reg("yield", func(tid uint64, args []interface{}) (interface{}, error) {
+	reg("yield", func(tid, key uint64, args []interface{}) (interface{}, error) {
 		r := c12cur
 		r.mu.Lock()
 		r.yields++
@@ -369,7 +376,7 @@ func c12Setup() {
 	})
 	// two-party rendezvous: returns when a second thread has arrived (the partner is inside a
 	// block of the other name, because blocks of one name admit one thread at a time)
-	reg("meet", func(tid uint64, args []interface{}) (interface{}, error) {
+	reg("meet", func(tid, key uint64, args []interface{}) (interface{}, error) {
 		r := c12cur
 		r.meetMu.Lock()
 		defer r.meetMu.Unlock()
@@ -429,9 +436,15 @@ func c12Exec(payload string) string {
 		nSink = threads
 	case "D":
 		nDirect = threads
-	default:
+	default: // M, L
 		nSink = threads / 2
 		nDirect = threads - nSink
+	}
+	// pool life-cycles: the processor is started and finished 0..2 (L: 1..3) times before the run,
+	// as the CLI does when it reloads; L: the directly evaluating threads got their ids BEFORE
+	restarts := int(seed % 3)
+	if mode == "L" {
+		restarts++
 	}
 
 	lg := &memLog{}
@@ -469,6 +482,19 @@ func c12Exec(payload string) string {
 		doneMu.Unlock()
 	}
 
+	var oldIDs []uint64
+	if mode == "L" {
+		for i := 0; i < nDirect; i++ {
+			oldIDs = append(oldIDs, erp.NewThreadID())
+		}
+	}
+	if nSink > 0 {
+		for k := 0; k < restarts; k++ {
+			erp.Processor.Start()
+			erp.Processor.Finish()
+		}
+	}
+
 	// direct evaluation: one goroutine per thread; every goroutine asks for its own thread id,
 	// all of them at the same moment (a generator handing out one id twice makes two threads
 	// "re-enter" each other's blocks)
@@ -486,7 +512,7 @@ func c12Exec(payload string) string {
 		total++
 		wg.Add(1)
 		ready.Add(1)
-		go func() {
+		go func(i int) {
 			defer wg.Done()
 			ready.Done()
 			for spin := 0; atomic.LoadInt32(&startGate) == 0; spin++ {
@@ -494,13 +520,18 @@ func c12Exec(payload string) string {
 					runtime.Gosched()
 				}
 			}
-			tid := erp.NewThreadID()
+			var tid uint64
+			if oldIDs != nil {
+				tid = oldIDs[i]
+			} else {
+				tid = erp.NewThreadID()
+			}
 			var e error
 			for k := 0; k < iters && e == nil; k++ {
 				_, e = call.Runtime.Eval(vs, make(map[string]interface{}), tid)
 			}
 			finished(e)
-		}()
+		}(i)
 	}
 	ready.Wait()
 	atomic.StoreInt32(&startGate, 1)
@@ -627,97 +658,139 @@ wait:
 func c12Ids(g, per int, variant string) string {
 	var next func() uint64
 	var tp *pool.ThreadPool
-	switch variant {
-	case "e":
+	var proc engine.Processor
+	var procTask func(tid uint64) // what the processor's rule does in the current phase
+	cycles := 0                   // restarts of the pool after the first phase
+	switch variant[0] {
+	case 'e':
 		erp := interpreter.NewECALRuntimeProvider("c12", nil, &memLog{})
 		defer erp.Cron.Stop()
 		next = erp.NewThreadID
+	case 'f': // erp + processor life-cycle: Start … Finish, again
+		erp := interpreter.NewECALRuntimeProvider("c12", nil, &memLog{})
+		defer erp.Cron.Stop()
+		erp.Processor = engine.NewProcessor(g)
+		proc = erp.Processor
+		if err := proc.AddRule(&engine.Rule{Name: "ids", KindMatch: []string{"ids"}, ScopeMatch: []string{},
+			Action: func(p engine.Processor, m engine.Monitor, e *engine.Event, tid uint64) error {
+				procTask(tid)
+				return nil
+			}}); err != nil {
+			panic(err)
+		}
+		tp = proc.ThreadPool()
+		next = erp.NewThreadID
+		cycles, _ = strconv.Atoi(variant[1:])
+	case 'r': // bare pool life-cycle: SetWorkerCount … JoinAll, again
+		tp = pool.NewThreadPool()
+		next = tp.NewThreadID
+		cycles, _ = strconv.Atoi(variant[1:])
 	default:
 		tp = pool.NewThreadPool()
 		next = tp.NewThreadID
 	}
-	got := make([][]uint64, g)
-	gate := make(chan struct{})
-	var ready, wg sync.WaitGroup
-	for i := 0; i < g; i++ {
-		ready.Add(1)
-		wg.Add(1)
-		go func(i int) {
-			defer wg.Done()
-			ids := make([]uint64, 0, per)
-			ready.Done()
-			<-gate
-			for k := 0; k < per; k++ {
-				ids = append(ids, next())
-			}
-			got[i] = ids
-		}(i)
-	}
-	if variant == "w" {
-		wg.Add(1)
-		go func() {
-			defer wg.Done()
-			<-gate
-			for n := 1; n <= g; n++ {
-				tp.SetWorkerCount(n, false)
-				runtime.Gosched()
-			}
-		}()
-	}
-	ready.Wait()
-	close(gate)
-	wg.Wait()
 	seen := make(map[uint64]int, g*per)
-	dup, zero, n := 0, 0, 0
-	for _, ids := range got {
-		for _, id := range ids {
-			n++
-			if id == 0 {
-				zero++
-			}
-			if seen[id] > 0 {
-				dup++
-			}
-			seen[id]++
-		}
-	}
-	wk, wdup := 0, 0
-	if variant == "w" {
-		tp.SetWorkerCount(g, true)
-		var mu sync.Mutex
-		var wids []uint64
-		var arrived sync.WaitGroup
-		arrived.Add(g)
-		release := make(chan struct{})
+	dup, zero, n, wk, wdup := 0, 0, 0, 0, 0
+	_ = procTask
+	for phase := 0; phase <= cycles; phase++ {
+		got := make([][]uint64, g)
+		gate := make(chan struct{})
+		var ready, wg sync.WaitGroup
 		for i := 0; i < g; i++ {
-			tp.AddTask(&c12Task{func(tid uint64) {
+			ready.Add(1)
+			wg.Add(1)
+			go func(i int) {
+				defer wg.Done()
+				ids := make([]uint64, 0, per)
+				ready.Done()
+				<-gate
+				for k := 0; k < per; k++ {
+					ids = append(ids, next())
+				}
+				got[i] = ids
+			}(i)
+		}
+		withWorkers := variant[0] == 'w' || variant[0] == 'r' || variant[0] == 'f'
+		if withWorkers {
+			wg.Add(1)
+			go func() {
+				defer wg.Done()
+				<-gate
+				if proc != nil {
+					proc.Start()
+					return
+				}
+				for n := 1; n <= g; n++ {
+					tp.SetWorkerCount(n, false)
+					runtime.Gosched()
+				}
+			}()
+		}
+		ready.Wait()
+		close(gate)
+		wg.Wait()
+		for _, ids := range got {
+			for _, id := range ids {
+				n++
+				if id == 0 {
+					zero++
+				}
+				if seen[id] > 0 {
+					dup++
+				}
+				seen[id]++
+			}
+		}
+		if withWorkers {
+			tp.SetWorkerCount(g, true)
+			var mu sync.Mutex
+			var wids []uint64
+			var arrived sync.WaitGroup
+			arrived.Add(g)
+			release := make(chan struct{})
+			task := func(tid uint64) {
 				mu.Lock()
 				wids = append(wids, tid)
 				mu.Unlock()
 				arrived.Done()
 				<-release
-			}})
-		}
-		ok := make(chan struct{})
-		go func() { arrived.Wait(); close(ok) }()
-		select {
-		case <-ok:
-		case <-time.After(60 * time.Second):
-		}
-		close(release)
-		tp.JoinAll()
-		mu.Lock()
-		wk = len(wids)
-		for _, id := range wids {
-			if id == 0 {
-				zero++
 			}
-			if seen[id] > 0 {
-				wdup++
+			procTask = task
+			for i := 0; i < g; i++ {
+				if proc != nil {
+					// the processor's queue takes its own kind of task: post an event for the rule
+					if _, err := proc.AddEvent(engine.NewEvent("ids", []string{"ids"}, nil), proc.NewRootMonitor(nil, nil)); err != nil {
+						panic(err)
+					}
+				} else {
+					tp.AddTask(&c12Task{task})
+				}
 			}
-			seen[id]++
+			ok := make(chan struct{})
+			go func() { arrived.Wait(); close(ok) }()
+			select {
+			case <-ok:
+			case <-time.After(60 * time.Second):
+			}
+			close(release)
+			if proc != nil {
+				proc.Finish()
+			} else {
+				tp.JoinAll()
+			}
+			mu.Lock()
+			wk += len(wids)
+			for _, id := range wids {
+				if id == 0 {
+					zero++
+				}
+				if seen[id] > 0 {
+					wdup++
+				}
+				seen[id]++
+			}
+			mu.Unlock()
 		}
-		mu.Unlock()
 	}
 	return fmt.Sprintf("ids=%d dup=%d zero=%d wk=%d wdup=%d", n, dup, zero, wk, wdup)
 }
@@ -748,6 +821,21 @@ func init() {
 					g.Count("id-generator " + v)
 					g.Emit(fmt.Sprintf("I %d %d 0 %s", n, 100000/n+1, v))
 				}
+			}
+			// … across pool life-cycles: every id ever handed out by one pool is distinct
+			for _, v := range []string{"r1", "r3", "f1", "f2", "f3"} {
+				for _, n := range []int{2, 7, 16} {
+					g.Count("mode I")
+					g.Count("id-generator life-cycle " + v[:1])
+					g.Emit(fmt.Sprintf("I %d %d 0 %s", n, 30000/n+1, v))
+				}
+			}
+			// a thread whose id was handed out before a restart of the pool sits in the blocks
+			// that the sinks on the restarted workers use
+			for _, n := range []int{4, 8, 16} {
+				emit("L", n, 6, "an()")
+				emit("L", n, 4, "an(an())ae()|ar(bn())")
+				g.Count("life-cycle exclusion")
 			}
 			// directed cases first
 			for _, mode := range []string{"D", "S", "M"} {
@@ -797,7 +885,7 @@ func init() {
 				if iters > 12 {
 					iters = 12
 				}
-				emit([]string{"S", "D", "M"}[g.R.Intn(3)], threads, iters, c12RolesText(roles))
+				emit([]string{"S", "D", "M", "L"}[g.R.Intn(4)], threads, iters, c12RolesText(roles))
 			}
 		},
 	})
